@@ -5,5 +5,5 @@ cd /verif
 suf=${1:-}
 out=seeded/RESULTS$suf.txt
 ls -d seeded/C*$suf | while read d; do s=$(basename $d); p=$(echo $s | cut -c1-3); [ -f $d/patch.diff ] && echo "$s $p"; done |
-  xargs -P 5 -L 1 sh -c 'tools/try_seed_scratch.sh $0 $1' | sort > $out
+  xargs -P 6 -L 1 sh -c 'tools/try_seed_scratch.sh $0 $1' | sort > $out
 cat $out
